@@ -124,6 +124,16 @@ public:
     return true;
   }
 
+  // local (source) address of the connection, "" if not connected; with local_port() it identifies
+  // the peer to Session::find_connection / set_send_budget
+  std::string local_ip() const {
+    sockaddr_in a{};
+    socklen_t n = sizeof a;
+    if (fd == -1 || getsockname(fd, (sockaddr*)&a, &n) != 0) return std::string();
+    char buf[INET_ADDRSTRLEN] = {0};
+    inet_ntop(AF_INET, &a.sin_addr, buf, sizeof buf);
+    return buf;
+  }
   uint16_t local_port() const {
     sockaddr_in a{};
     socklen_t n = sizeof a;
